@@ -17,6 +17,11 @@
   C21-END    every registered block tag declares ``end == "end" + name`` (the audit pairs
              blocks by that convention and ``registered_end_blocks`` is built from ``end``) and
              its parser stops at exactly that tag.
+  C21-LIVE   the audit judges a template against the tag register the environment has *now* (the
+             same ``env.tags`` the parser consults on every parse): no function that reads a
+             ``.tags`` register is memoised (``lru_cache`` / ``cache`` / ``cached_property`` —
+             a snapshot keyed on the environment goes stale when a tag is added or removed),
+             and ``_audit_tags`` (with its un-memoised helpers) does read ``env.tags``.
   C21-BLOCK  a tag is declared ``block`` iff its parser consumes a block (calls
              ``parse_block`` / scans to its end tag): the audit pushes exactly the tags that
              need an end tag.
@@ -123,7 +128,7 @@ def parser_facts(repo: Repo, tag, eof: str):
 
 def run(repo: Repo) -> Result:
     res = Result(PID)
-    res.rules = ["C21-TOTAL", "C21-STACK", "C21-INNER", "C21-END", "C21-BLOCK"]
+    res.rules = ["C21-TOTAL", "C21-STACK", "C21-INNER", "C21-END", "C21-BLOCK", "C21-LIVE"]
     res.explanation = "totality of the tag audit (guarded pops / subscripts) and agreement between each block tag's parser, its declared end tag and DEFAULT_INNER_TAG_MAP"
     res.assumptions = ["sources the lexer accepts (post-lexing token lists)", "default and extra registries"]
     reg = Registry(repo)
@@ -204,6 +209,15 @@ def run(repo: Repo) -> Result:
         res.add("C21-STACK", audit.qual, "push-pop", "_audit_tags must push every block tag on one stack and pop that same stack on every end tag", audit.file, audit.line)
     else:
         stack = next(iter(stack_names))
+        # the three report tables, by position in the returned tuple: (unclosed, unexpected, unknown)
+        rets_a = [r for r in walk_no_nested(audit.node) if isinstance(r, ast.Return) and isinstance(r.value, ast.Tuple) and len(r.value.elts) == 3]
+        if len(rets_a) != 1:
+            raise AnchorMissing("_audit_tags no longer returns one (unclosed, unexpected, unknown) tuple")
+        report_vars = []
+        for e in rets_a[0].value.elts:
+            nm = e.args[0] if isinstance(e, ast.Call) and e.args else e
+            report_vars.append(nm.id if isinstance(nm, ast.Name) else text(nm))
+        unclosed_var = report_vars[0]
         vcalls = [c for c in calls(audit.node) if callee_name(c) == "_valid_inner_tag"]
         if len(vcalls) != 1 or len(vcalls[0].args) != 2 or not is_name(vcalls[0].args[1], stack):
             res.add("C21-STACK", audit.qual, f"inner-validated-against:{text(vcalls[0].args[1]) if vcalls and len(vcalls[0].args) == 2 else None}", f"an inner tag must be validated against the stack of open blocks itself (`{stack}`): any derived container (a set of names, a counter) forgets that an enclosing block of the same name is still open after a nested one closes", audit.file, audit.line)
@@ -215,13 +229,32 @@ def run(repo: Repo) -> Result:
         for c in calls(audit.node):
             if id(c) not in in_loop:
                 continue
-            if callee_name(c) in ("add", "discard", "remove") and isinstance(call_recv(c), ast.Name) and call_recv(c).id != stack and call_recv(c).id not in ("unclosed_tags", "unexpected_tags", "unknown_tags"):
+            if callee_name(c) in ("add", "discard", "remove") and isinstance(call_recv(c), ast.Name) and call_recv(c).id != stack and call_recv(c).id not in report_vars:
                 res.add("C21-STACK", audit.qual, f"shadow-container:{call_recv(c).id}", f"_audit_tags mirrors the block stack in `{call_recv(c).id}` ({text(c)[:40]}): a set cannot count nested blocks of the same name", audit.file, c.lineno)
-        after = [s for s in audit.node.body if isinstance(s, ast.For) and is_name(s.iter, stack)]
-        if not after or "unclosed_tags[block.name].append(" not in text(after[-1]):
+        def reports_unclosed(node, item: str) -> bool:
+            """`<unclosed>[<item>.name].append(...)` somewhere inside node"""
+            for c in calls(node):
+                r = call_recv(c)
+                if callee_name(c) in ("append", "extend") and isinstance(r, ast.Subscript) and is_name(r.value, unclosed_var) and text(r.slice) == f"{item}.name":
+                    return True
+            return False
+
+        after = [s for s in audit.node.body if isinstance(s, ast.For) and is_name(s.iter, stack) and isinstance(s.target, ast.Name)]
+        if not after or not reports_unclosed(after[-1], after[-1].target.id):
             res.add("C21-STACK", audit.qual, "leftover-unclosed", "blocks left on the stack at the end must be reported as unclosed", audit.file, audit.line)
-        mism = [n for n in ast.walk(audit.node) if isinstance(n, ast.If) and text(n.test) == "start_block_tag != tag_name[3:]"]
-        if not mism or "unclosed_tags[start_block_tag.name].append(" not in text(mism[0]):
+        # `<popped> = <stack>.pop()` followed by `if <popped> != <tag name>[3:]: <unclosed>[<popped>.name].append(...)`
+        popped = {st.targets[0].id for st in ast.walk(audit.node) if isinstance(st, ast.Assign) and len(st.targets) == 1 and isinstance(st.targets[0], ast.Name) and isinstance(st.value, ast.Call) and callee_name(st.value) == "pop" and is_name(call_recv(st.value), stack)}
+        mism = [
+            n
+            for n in ast.walk(audit.node)
+            if isinstance(n, ast.If)
+            and isinstance(n.test, ast.Compare)
+            and len(n.test.ops) == 1
+            and isinstance(n.test.ops[0], ast.NotEq)
+            and any(isinstance(side, ast.Name) and side.id in popped for side in (n.test.left, n.test.comparators[0]))
+            and any(isinstance(side, ast.Subscript) and isinstance(side.slice, ast.Slice) and text(side.slice) == "3:" for side in (n.test.left, n.test.comparators[0]))
+        ]
+        if not mism or not any(reports_unclosed(m_, p_) for m_ in mism for p_ in popped):
             res.add("C21-STACK", audit.qual, "mismatch-unclosed", "an end tag that does not match the popped block must report that block as unclosed", audit.file, audit.line)
     vit = repo.own_method(TA, "_valid_inner_tag")
     rets = [s for s in walk_no_nested(vit.node) if isinstance(s, ast.Return)]
@@ -307,6 +340,44 @@ def run(repo: Repo) -> Result:
             res.add("C21-INNER", f"liquid.analyze_tags.DEFAULT_INNER_TAG_MAP[{k}]", "not-a-block-tag", f"DEFAULT_INNER_TAG_MAP has an entry for {k!r}, which is not a registered block tag", "liquid/analyze_tags.py", mp_expr.lineno)
     if n_block < 12:
         raise AnchorMissing(f"only {n_block} block tags found")
+    # ---- C21-LIVE --------------------------------------------------------------------------
+    MEMO = {"lru_cache", "cache", "cached_property"}
+
+    def memoised(f) -> bool:
+        for d in f.node.decorator_list:
+            for n in ast.walk(d):
+                if isinstance(n, ast.Name) and n.id in MEMO or isinstance(n, ast.Attribute) and n.attr in MEMO:
+                    return True
+        return False
+
+    def reads_tags(node) -> bool:
+        return any(isinstance(n, ast.Attribute) and n.attr == "tags" and isinstance(n.ctx, ast.Load) for n in ast.walk(node))
+
+    n_memo = 0
+    for f in repo.all_functions():
+        if memoised(f):
+            n_memo += 1
+            res.ob(f"live:memo:{f.qual}")
+            if reads_tags(f.node):
+                res.add("C21-LIVE", f.qual, "memoised-register", f"{f.qual} is memoised and reads a `.tags` register: the cached summary is a snapshot — after env.add_tag(...) / del env.tags[...] the tag audit judges templates against the old register (valid tags reported as unknown, removed tags not reported) while the parser reads env.tags live", f.file, f.line)
+    # module-level `name = lru_cache(...)(fn)` wrappers
+    for m in repo.modules.values():
+        for nm, v in m.assigns.items():
+            if isinstance(v, ast.Call) and any(isinstance(x, (ast.Name, ast.Attribute)) and (getattr(x, "id", None) in MEMO or getattr(x, "attr", None) in MEMO) for x in ast.walk(v.func)):
+                for a in v.args:
+                    r = repo.resolve_in(m, text(a)) if isinstance(a, (ast.Name, ast.Attribute)) else None
+                    if r is not None and hasattr(r, "node") and reads_tags(r.node):
+                        res.add("C21-LIVE", f"{m.name}.{nm}", "memoised-register", f"{m.name}.{nm} memoises {text(a)}, which reads a `.tags` register", m.relpath, v.lineno)
+    au = repo.own_method(TA, "_audit_tags")
+    res.ob(f"live:{au.qual}")
+    from ..callgraph import CallGraph as _CG
+
+    cg = _CG(repo)
+    live = reads_tags(au.node) or any(reads_tags(g.node) and not memoised(g) for g in cg.callees(au))
+    if not live:
+        res.add("C21-LIVE", au.qual, "no-register-read", "_audit_tags (and its un-memoised helpers) no longer reads env.tags: the audit cannot reflect the environment's current tag register", au.file, au.line)
+    if n_memo < 3:
+        raise AnchorMissing(f"only {n_memo} memoised functions found (get_lexer, get_parser, get_implicit_environment expected)")
     res.stats.update(block_tags=n_block, inner_tag_map={k: sorted(v) for k, v in inner_map.items()})
     return res
 
@@ -320,6 +391,8 @@ def selftest(repo: Repo):
     A = "liquid/analyze_tags.py"
     return [
         v("unguarded-pop", A, "                if not block_stack:\n                    # An \"end\" tag without any open block.\n                    unexpected_tags[tag_name].append(\n                        Span(self.template_name, token.start_index)\n                    )\n                    continue\n", "", "pop-unguarded"),
+        lambda: Variant("tag-register-summary-memoised-per-environment", {A: next(m for m in repo.modules.values() if m.relpath == A).source.replace("InnerTagMap = Mapping[str, Iterable[str]]", "from functools import lru_cache\n\n\n@lru_cache(maxsize=128)\ndef _inline_tag_names(env):\n    return frozenset(tag.name for tag in env.tags.values() if not tag.block)\n\n\nInnerTagMap = Mapping[str, Iterable[str]]").replace("        inline_tags = {tag.name for tag in env.tags.values() if not tag.block}", "        inline_tags = _inline_tag_names(env)")}, "C21-LIVE"),
+        lambda: Variant("tag-register-summary-helper-not-memoised-is-silent", {A: next(m for m in repo.modules.values() if m.relpath == A).source.replace("InnerTagMap = Mapping[str, Iterable[str]]", "def _inline_tag_names(env):\n    return frozenset(tag.name for tag in env.tags.values() if not tag.block)\n\n\nInnerTagMap = Mapping[str, Iterable[str]]").replace("        inline_tags = {tag.name for tag in env.tags.values() if not tag.block}", "        inline_tags = _inline_tag_names(env)")}, "C21-", silent=True),
         v("map-drops-for-else", A, '"for": ["else", "break", "continue"],', '"for": ["break", "continue"],', "C21-INNER"),
         v("map-drops-case-else", A, '"case": ["when", "else"],', '"case": ["when"],', "C21-INNER"),
         v("map-drops-plural", A, '    "translate": ["plural"],\n', "", "C21-INNER"),
